@@ -1,0 +1,10 @@
+//go:build verif
+
+package gonnx
+
+// VerifParameters returns the model's decoded initializers (the tensors themselves, not
+// copies) so that a verification harness can snapshot them before and after Run. Read-only use.
+// Compiled only with the build tag `verif`.
+func (m *Model) VerifParameters() Tensors {
+	return m.parameters
+}
